@@ -50,6 +50,8 @@ def seeded():
         ok = all(m["confirmed"].values())
         own = m["breaks_property"]
         cb = ", ".join(("**%s**" % c) if c == own else c for c in m["caught_by"] or [])
+        if m.get("caught_by_thorough_tier"):
+            cb = (cb + "; " if cb else "") + "thorough tier: " + ", ".join(("**%s**" % c) if c == own else c for c in m["caught_by_thorough_tier"])
         b = m.get("caught_by_before_strengthening")
         first = "not recorded" if b is None else (", ".join(("**%s**" % c) if c == own else c for c in b) or "none")
         print(f"| {name} | {m['change']} | {m['needs_to_manifest']} | {'yes' if ok else 'NO'} | {cb or 'none'} | {first} |")
